@@ -176,13 +176,13 @@ def invariant_init(run, model):
 
 
 def run(run, model):
-    reserved_def(run, model)
-    gates.c19_reserved_call(run, model)
-    gates.c19_result_old(run, model)
-    validators(run, model)
-    invariant_init(run, model)
-    c08.define_tables(run, model, "C19.snapshot-order")
-    c09.validate_tables(run, model, "C19.error-kind")
+    run.do(reserved_def, model)
+    run.do(gates.c19_reserved_call, model)
+    run.do(gates.c19_result_old, model)
+    run.do(validators, model)
+    run.do(invariant_init, model)
+    run.do(c08.define_tables, model, "C19.snapshot-order")
+    run.do(c09.validate_tables, model, "C19.error-kind")
     run.minimum("C19.reserved-def", 5)
     run.minimum("C19.reserved-call", 6)
     run.minimum("C19.result-old", 10)
